@@ -365,6 +365,7 @@ type stepScenario struct {
 	StopAtMs int      `json:"stopAtMs,omitempty"` // alternatively: the stop is issued at this fake time (lands inside sleeps: launch delay, retry and repeat intervals, the 100 ms pause)
 	StopVia string    `json:"stopVia,omitempty"`
 	SlowHistory bool  `json:"slowHistory,omitempty"`
+	IOFault *ioFaultCfg `json:"ioFault,omitempty"`
 	YAML    string    `json:"yaml,omitempty"`
 }
 
@@ -377,11 +378,14 @@ func init() {
 		}{"stepsim", []string{"sched"}}
 	}
 	e := PropEngines["C03"]
-	e.Variants = []string{"sched", "sched", "sched", "dry", "stop", "timeout"}
+	e.Variants = []string{"sched", "sched", "sched", "dry", "stop", "timeout", "iofault"}
 	PropEngines["C03"] = e
 	e = PropEngines["C04"]
-	e.Variants = []string{"sched", "stop", "precond"}
+	e.Variants = []string{"sched", "stop", "precond", "iofault"}
 	PropEngines["C04"] = e
+	e = PropEngines["C01"]
+	e.Variants = []string{"sched", "sched", "iofault"}
+	PropEngines["C01"] = e
 	PropEngines["C05"] = struct {
 		Engine   string
 		Variants []string
@@ -468,6 +472,20 @@ func stepsim(t *testing.T, tp *simrt.Tape, opts RunOpts) *Outcome {
 			sc.StopAtMs = pick(tp, 200, 700, 1001, 1300, 1900, 2400, 3100, 4500)
 		}
 	}
+	if sc.Variant == "iofault" {
+		// a third of the steps carry a script (written to a temporary file before each attempt); retries wait
+		// long enough for the polling loop to come round while a step waits for its next attempt
+		for i := range sc.Dag.Steps {
+			s := &sc.Dag.Steps[i]
+			if chance(tp, 1, 3) {
+				s.Script = "#!/bin/sh\n# " + strings.Repeat("x", pick(tp, 0, 10, 200, 5000)) + "\nrun " + s.Name + "\n"
+			}
+			if s.RetryLimit > 0 && chance(tp, 1, 2) {
+				s.RetryInterval = pick(tp, 1, 1, 2)
+			}
+		}
+		sc.IOFault = drawIOFaultCfg(tp)
+	}
 	sc.YAML = sc.Dag.YAML()
 	out.Sample = sc
 
@@ -522,6 +540,15 @@ func stepsim(t *testing.T, tp *simrt.Tape, opts RunOpts) *Outcome {
 			op.Proc.W.CountFault("slow_op")
 			return simrt.Fault{Kind: simrt.FSlow, Delay: time.Duration(pick(tp, 120, 250, 400)) * time.Millisecond}
 		}
+	}
+	var ioTouched map[string]bool
+	if sc.IOFault != nil {
+		cfg.FaultPlan, ioTouched = ioFaultPlan(tp, sc.IOFault, func() int {
+			if ar == nil || ar.proc == nil {
+				return -1
+			}
+			return ar.proc.Pid
+		})
 	}
 	res := simrt.Run(t, cfg, func(w *simrt.World) {
 		seedIDs(tp)
@@ -597,7 +624,7 @@ func stepsim(t *testing.T, tp *simrt.Tape, opts RunOpts) *Outcome {
 	}
 	truth.Finalize(res.Events)
 	ctx := &stepCheck{sc: sc, ar: ar, truth: truth, final: final, res: res, out: out, prop: opts.Prop,
-		stopIssuedSeq: stopIssuedSeq, stopDoneSeq: stopDoneSeq, cancelSeenSeq: cancelSeenSeq, cancelSeenAt: cancelSeenAt, agentExited: agentExited, statusAtStop: statusAtStop, mutBefore: mutBefore, mutAfter: mutAfter}
+		stopIssuedSeq: stopIssuedSeq, stopDoneSeq: stopDoneSeq, cancelSeenSeq: cancelSeenSeq, cancelSeenAt: cancelSeenAt, agentExited: agentExited, statusAtStop: statusAtStop, mutBefore: mutBefore, mutAfter: mutAfter, ioTouched: ioTouched}
 	ctx.check()
 	return out
 }
@@ -678,6 +705,7 @@ type stepCheck struct {
 	racedLaunch   bool
 	mutBefore     map[string]string
 	mutAfter      map[string]string
+	ioTouched     map[string]bool
 }
 
 func (c *stepCheck) want(p string) bool { return c.prop == "" || c.prop == p }
@@ -704,6 +732,10 @@ func (c *stepCheck) check() {
 	}
 	if c.sc.Variant == "log" {
 		c.checkLogs(hung)
+		return
+	}
+	if c.sc.Variant == "iofault" {
+		c.checkIOFault(hung)
 		return
 	}
 
